@@ -62,7 +62,12 @@ impl Ctx {
         if self.judge.is_none() {
             self.judge = Some(proc::spawn_judge()?);
         }
-        let r = self.judge.as_mut().unwrap().request(req, Duration::from_secs(120));
+        if let Ok(path) = std::env::var("VERIF_DEBUG_JUDGE") {
+            let _ = std::fs::write(format!("{}.{:?}", path, std::thread::current().id()), serde_json::to_string(&req).unwrap_or_default());
+        }
+        // (a document set is judged in milliseconds; the bound is there for pathological schemas, and is short while
+        // shrinking, where every candidate of a slow case would otherwise wait it out again)
+        let r = self.judge.as_mut().unwrap().request(req, Duration::from_secs(if self.shrinking { 5 } else { 40 }));
         if r.is_err() {
             self.judge = None;
         }
@@ -684,6 +689,7 @@ pub fn replay(check: Arc<dyn Check>, path: &str) -> i32 {
         Some(v) => {
             println!("VIOLATION property={} replay={}", check.id(), path);
             println!("  {}: {}", v.signature, v.what);
+            println!("  signatures: {:?}", out.all_signatures);
             println!("{}", serde_json::to_string_pretty(&v.detail).unwrap());
             1
         }
